@@ -395,6 +395,163 @@ theorem c16_validate_export_ob (σ : State) (h : obInv σ = true) (hp : σ.param
   unfold validateOb
   simp only [F1, F2, F3, F4, F5, F6, F7, Bool.not_true, Bool.false_eq_true, ↓reduceIte, bne_self_eq_false]
 
+-- =============================================================================================
+-- orderbook: import of the export
+
+theorem export_pairs_scan (σ : State) :
+    (exportOb σ).pairs = (scan σ.books (·.pairs)).map (fun y => (y.1, y.2.1, betUidOf σ y.2.2)) := by
+  simp [exportOb, scan, List.map_flatten, List.map_map, Function.comp_def]
+
+def opParts (B : List Book) : List (Nat × (Book → Book)) := (scan B (·.parts)).map (fun x => (x.1, fun bk => bk.setPart x.2))
+def opQueues (B : List Book) : List (Nat × (Book → Book)) := (scan B (·.queues)).map (fun x => (x.1, fun bk => bk.setQueue x.2.1 x.2.2))
+def opExps (B : List Book) : List (Nat × (Book → Book)) := (scan B (·.pexps)).map (fun x => (x.1, fun bk => bk.setExp x.2))
+def opHist (B : List Book) : List (Nat × (Book → Book)) := (scan B (·.hist)).map (fun x => (x.1, fun bk => bk.setHist x.2))
+def opPairs (B : List Book) : List (Nat × (Book → Book)) := (scan B (·.pairs)).map (fun x => (x.1, fun bk => bk.addPair x.2.1 x.2.2))
+
+theorem ops_keep_uid :
+    (∀ B, ∀ o ∈ opParts B, ∀ b, (o.2 b).uid = b.uid) ∧ (∀ B, ∀ o ∈ opQueues B, ∀ b, (o.2 b).uid = b.uid) ∧
+    (∀ B, ∀ o ∈ opExps B, ∀ b, (o.2 b).uid = b.uid) ∧ (∀ B, ∀ o ∈ opHist B, ∀ b, (o.2 b).uid = b.uid) ∧
+    (∀ B, ∀ o ∈ opPairs B, ∀ b, (o.2 b).uid = b.uid) := by
+  refine ⟨?_, ?_, ?_, ?_, ?_⟩ <;> intro B o ho b
+  all_goals
+    first
+    | (unfold opParts at ho; obtain ⟨x, _, rfl⟩ := List.mem_map.mp ho; rfl)
+    | (unfold opQueues at ho; obtain ⟨x, _, rfl⟩ := List.mem_map.mp ho; rfl)
+    | (unfold opExps at ho; obtain ⟨x, _, rfl⟩ := List.mem_map.mp ho; rfl)
+    | (unfold opHist at ho; obtain ⟨x, _, rfl⟩ := List.mem_map.mp ho; rfl)
+    | (unfold opPairs at ho; obtain ⟨x, _, rfl⟩ := List.mem_map.mp ho; rfl)
+
+/-- one book: the record written by `SetOrderBook`, then all nested records of the book written back -/
+theorem rebuild_book (B : List Book) (hs : Sorted Book.key B) (b : Book) (hb : b ∈ B) (hi : bookInv b = true) :
+    applyOps (opPairs B) (applyOps (opHist B) (applyOps (opExps B) (applyOps (opExps B) (applyOps (opQueues B)
+      (applyOps (opParts B) (skelOf (Book.header b))))))) = b := by
+  unfold bookInv at hi
+  simp only [Bool.and_eq_true] at hi
+  obtain ⟨⟨⟨⟨⟨⟨⟨⟨hq, hp⟩, he⟩, hh⟩, hx⟩, _⟩, _⟩, _⟩, _⟩ := hi
+  rw [sortedB_iff] at hq hp he hh hx
+  have t1 : applyOps (opParts B) (skelOf (Book.header b)) =
+      { skelOf (Book.header b) with parts := setAll Part.key b.parts [] } := by
+    unfold opParts
+    rw [applyOps_scan B hs (·.parts) (fun p bk => bk.setPart p) b hb (skelOf (Book.header b)) rfl, foldl_setPart]
+    rfl
+  have t2 : ∀ bk : Book, bk.uid = b.uid → applyOps (opQueues B) bk =
+      { bk with queues := setAll (fun (x : Nat × List Nat) => [x.1]) b.queues bk.queues } := by
+    intro bk hu
+    unfold opQueues
+    rw [applyOps_scan B hs (·.queues) (fun q bk => bk.setQueue q.1 q.2) b hb bk hu, foldl_setQueue]
+  have t3 : ∀ bk : Book, bk.uid = b.uid → applyOps (opExps B) bk = { bk with pexps := setAll PExp.key b.pexps bk.pexps } := by
+    intro bk hu
+    unfold opExps
+    rw [applyOps_scan B hs (·.pexps) (fun e bk => bk.setExp e) b hb bk hu, foldl_setExp]
+  have t4 : ∀ bk : Book, bk.uid = b.uid → applyOps (opHist B) bk = { bk with hist := setAll PExp.hkey b.hist bk.hist } := by
+    intro bk hu
+    unfold opHist
+    rw [applyOps_scan B hs (·.hist) (fun e bk => bk.setHist e) b hb bk hu, foldl_setHist]
+  have t5 : ∀ bk : Book, bk.uid = b.uid → applyOps (opPairs B) bk =
+      { bk with pairs := setAll (fun (x : Nat × Nat) => [x.1, x.2]) b.pairs bk.pairs } := by
+    intro bk hu
+    unfold opPairs
+    rw [applyOps_scan B hs (·.pairs) (fun x bk => bk.addPair x.1 x.2) b hb bk hu, foldl_addPair]
+  obtain ⟨kp, kq, ke, kh, _⟩ := ops_keep_uid
+  have v1 : (applyOps (opParts B) (skelOf (Book.header b))).uid = b.uid := by rw [applyOps_uid _ (kp B)]; rfl
+  have v2 : (applyOps (opQueues B) (applyOps (opParts B) (skelOf (Book.header b)))).uid = b.uid := by
+    rw [applyOps_uid _ (kq B)]; exact v1
+  have v3 : (applyOps (opExps B) (applyOps (opQueues B) (applyOps (opParts B) (skelOf (Book.header b))))).uid = b.uid := by
+    rw [applyOps_uid _ (ke B)]; exact v2
+  have v4 : (applyOps (opExps B) (applyOps (opExps B) (applyOps (opQueues B) (applyOps (opParts B) (skelOf (Book.header b)))))).uid = b.uid := by
+    rw [applyOps_uid _ (ke B)]; exact v3
+  have v5 : (applyOps (opHist B) (applyOps (opExps B) (applyOps (opExps B) (applyOps (opQueues B) (applyOps (opParts B)
+      (skelOf (Book.header b))))))).uid = b.uid := by
+    rw [applyOps_uid _ (kh B)]; exact v4
+  rw [t5 _ v5, t4 _ v4, t3 _ v3, t3 _ v2, t2 _ v1, t1]
+  simp only [skelOf, Book.header]
+  rw [setAll_sorted _ _ hp, setAll_sorted _ _ hq, setAll_sorted _ _ he, setAll_self _ _ he, setAll_sorted _ _ hh,
+    setAll_sorted _ _ hx]
+
+/-- C16 orderbook: InitGenesis of the module's export does not panic and every store comes back — books, participations,
+    fulfilment queues, participation exposures, historical exposures, participation–bet pairs (with the bet ids looked
+    up in the bet store imported before), the resolved-unsettled queue and the three parameters.
+    `base` is the state of the new chain when the order-book genesis is reached: no books yet, bets imported. -/
+theorem c16_import_export_ob (σ base : State) (h : obInv σ = true) (hu : hasDup (σ.bets.map (·.uid)) = false)
+    (hb0 : base.books = []) (hb1 : base.bets = σ.bets) :
+    ∃ σ', importOb (exportOb σ) base = some σ' ∧ σ'.books = σ.books ∧ σ'.obqueue = σ.obqueue ∧ σ'.bets = σ.bets ∧
+      σ'.params.obMaxPart = σ.params.obMaxPart ∧ σ'.params.obBatch = σ.params.obBatch ∧
+      σ'.params.obThreshold = σ.params.obThreshold := by
+  unfold obInv at h
+  simp only [Bool.and_eq_true] at h
+  obtain ⟨⟨⟨hsb, hbk⟩, hi⟩, hpairs⟩ := h
+  rw [sortedB_iff] at hsb
+  have hi : hasDup (σ.bets.map (·.id)) = false := by simpa using hi
+  obtain ⟨kp, kq, ke, kh, kx⟩ := ops_keep_uid
+  -- stage 0: the books
+  have hskel : Sorted Book.key (base.books ++ ((exportOb σ).books.map skelOf)) := by
+    rw [hb0, (exportOb_scans σ).2.2.2.2.2, List.map_map]
+    simpa using sorted_map_key Book.key (skelOf ∘ Book.header) σ.books hsb (fun _ => rfl)
+  obtain ⟨a1, a2, _, _⟩ := foldl_setBookRec (exportOb σ).books base hskel
+  have sorted_stage : ∀ (l : List Book) (g : Book → Book), (∀ a, (g a).uid = a.uid) → Sorted Book.key l → Sorted Book.key (l.map g) :=
+    fun l g hg hl => sorted_map_key Book.key g l hl (fun a => by simp [Book.key, hg])
+  -- stages 1–5
+  generalize hs1 : (exportOb σ).books.foldl setBookRec base = s1 at a1 a2
+  rw [hb0, (exportOb_scans σ).2.2.2.2.2, List.map_map, List.nil_append] at a1
+  have hs1s : Sorted Book.key s1.books := by rw [a1]; exact sorted_stage _ _ (fun _ => rfl) hsb
+  have e1 : (exportOb σ).parts.foldl (fun acc p => onBook acc p.1 (fun b => b.setPart p.2)) s1 =
+      (opParts σ.books).foldl (fun acc o => onBook acc o.1 o.2) s1 := by
+    unfold opParts; rw [List.foldl_map]; rfl
+  obtain ⟨b1, b2, _, _⟩ := foldl_onBook (opParts σ.books) (kp _) s1 hs1s
+  generalize hs2 : (opParts σ.books).foldl (fun acc o => onBook acc o.1 o.2) s1 = s2 at e1 b1 b2
+  have hs2s : Sorted Book.key s2.books := by rw [b1]; exact sorted_stage _ _ (applyOps_uid _ (kp _)) hs1s
+  have e2 : (exportOb σ).queues.foldl (fun acc q => onBook acc q.1 (fun b => b.setQueue q.2.1 q.2.2)) s2 =
+      (opQueues σ.books).foldl (fun acc o => onBook acc o.1 o.2) s2 := by
+    unfold opQueues; rw [List.foldl_map]; rfl
+  obtain ⟨c1, c2, _, _⟩ := foldl_onBook (opQueues σ.books) (kq _) s2 hs2s
+  generalize hs3 : (opQueues σ.books).foldl (fun acc o => onBook acc o.1 o.2) s2 = s3 at e2 c1 c2
+  have hs3s : Sorted Book.key s3.books := by rw [c1]; exact sorted_stage _ _ (applyOps_uid _ (kq _)) hs2s
+  have e3 : (exportOb σ).pexps.foldl (fun acc e => onBook acc e.1 (fun b => b.setExp e.2)) s3 =
+      (opExps σ.books).foldl (fun acc o => onBook acc o.1 o.2) s3 := by
+    unfold opExps; rw [List.foldl_map]; rfl
+  obtain ⟨d1, d2, _, _⟩ := foldl_onBook (opExps σ.books) (ke _) s3 hs3s
+  generalize hs4 : (opExps σ.books).foldl (fun acc o => onBook acc o.1 o.2) s3 = s4 at e3 d1 d2
+  have hs4s : Sorted Book.key s4.books := by rw [d1]; exact sorted_stage _ _ (applyOps_uid _ (ke _)) hs3s
+  have e4 : (exportOb σ).pexpsByIdx.foldl (fun acc e => onBook acc e.1 (fun b => b.setExp e.2)) s4 =
+      (opExps σ.books).foldl (fun acc o => onBook acc o.1 o.2) s4 := by
+    unfold opExps; rw [List.foldl_map]; rfl
+  obtain ⟨f1, f2, _, _⟩ := foldl_onBook (opExps σ.books) (ke _) s4 hs4s
+  generalize hs5 : (opExps σ.books).foldl (fun acc o => onBook acc o.1 o.2) s4 = s5 at e4 f1 f2
+  have hs5s : Sorted Book.key s5.books := by rw [f1]; exact sorted_stage _ _ (applyOps_uid _ (ke _)) hs4s
+  have e5 : (exportOb σ).hist.foldl (fun acc e => onBook acc e.1 (fun b => b.setHist e.2)) s5 =
+      (opHist σ.books).foldl (fun acc o => onBook acc o.1 o.2) s5 := by
+    unfold opHist; rw [List.foldl_map]; rfl
+  obtain ⟨g1, g2, _, _⟩ := foldl_onBook (opHist σ.books) (kh _) s5 hs5s
+  generalize hs6 : (opHist σ.books).foldl (fun acc o => onBook acc o.1 o.2) s5 = s6 at e5 g1 g2
+  have hs6s : Sorted Book.key s6.books := by rw [g1]; exact sorted_stage _ _ (applyOps_uid _ (kh _)) hs5s
+  have hbets6 : s6.bets = σ.bets := by rw [g2, f2, d2, c2, b2, a2, hb1]
+  -- stage 6: the bet pairs
+  have hl : ∀ y ∈ scan σ.books (·.pairs), σ.bets.any (fun t => t.id == y.2.2) = true := by
+    intro y hy
+    obtain ⟨b, hb, _, h2⟩ := (mem_scan _ _ y).mp hy
+    exact List.all_eq_true.mp (List.all_eq_true.mp hpairs b hb) y.2 h2
+  have e6 := foldl_importPair σ hu hi (scan σ.books (·.pairs)) hl s6 hbets6 hs6s
+  rw [← export_pairs_scan σ] at e6
+  have e6' : (scan σ.books (·.pairs)).map (fun y => (y.1, fun (b : Book) => b.addPair y.2.1 y.2.2)) = opPairs σ.books := rfl
+  rw [e6'] at e6
+  obtain ⟨i1, i2, i3, i4⟩ := foldl_onBook (opPairs σ.books) (kx _) s6 hs6s
+  generalize hs7 : (opPairs σ.books).foldl (fun acc o => onBook acc o.1 o.2) s6 = s7 at e6 i1 i2 i3 i4
+  -- assemble
+  unfold importOb
+  simp only
+  rw [hs1, e1, e2, e3, e4, e5, e6]
+  refine ⟨_, rfl, ?_, rfl, ?_, rfl, rfl, rfl⟩
+  · show s7.books = σ.books
+    rw [i1, g1, f1, d1, c1, b1, a1]
+    simp only [List.map_map]
+    conv => rhs; rw [← List.map_id σ.books]
+    apply List.map_congr_left
+    intro b hb
+    simp only [Function.comp, id]
+    exact rebuild_book σ.books hsb b hb (List.all_eq_true.mp hbk b hb)
+  · show s7.bets = σ.bets
+    rw [i2, hbets6]
+
 def cexTk : Tk := { ok := true, kycIgnore := true, kycApproved := false, kycId := 0 }
 
 def cexBase : State :=
